@@ -320,8 +320,10 @@ def view(op, input, *shape):
 
 @register_qbytestensor_op([torch.ops.aten.where])
 def where(op, condition, input, other):
-    if isinstance(condition, QTensor) or isinstance(other, QTensor):
+    if isinstance(condition, QTensor):
         raise NotImplementedError
+    if not isinstance(input, QBytesTensor) or isinstance(other, QTensor):
+        return qfallback(op, condition, input, other)
     float_data = op(condition, input.dequantize(), other)
     if input.axis is None:
         # We requantize with the input scale
